@@ -161,6 +161,10 @@ def _replay(tab, opts):
     nn = [cs for cs in cases if cs["v"]["k"] != "none"] or cases
     P = type("P", (param.Parameterized,), {"x": declare(t, c, mk(nn[0]["v"])), "values": param.Integer(3)})
     serialized = []
+    # an instance that owns Parameter copies from the start and never sets x: it follows the class-level value
+    follower = P()
+    follower.param["x"]
+    api("serialize_value('x')", follower.param.serialize_value, "x")
     for cs in cases:
         v = mk(cs["v"])
         want = tojson(cs["ser"])
@@ -187,6 +191,14 @@ def _replay(tab, opts):
                 return fail("subset", "%s level: subset=['x'] produced keys %s" % (level, sorted(got)))
             if mode in ("both", "roundtrip") and not samejson(got["x"], want):
                 return fail("serialized", "%s level: %r serialized as %r, spec expects %r" % (level, v, got["x"], want), want, got["x"])
+            if level == "class" and not born_none and mode in ("both", "roundtrip"):
+                ftext = api("serialize_parameters(subset=['x']) of an instance following the class", follower.param.serialize_parameters, subset=["x"])
+                # (a parameter declared instantiate=True gave the instance its own copy of the default at construction: it does not follow)
+                if not P.param["x"].instantiate and not samejson(strict_loads(ftext)["x"], want):
+                    return fail("serialized", "after the class-level assignment of %r an instance that never set x serializes %s, spec expects %r" % (v, ftext, want), want, ftext)
+                fone = api("serialize_value('x') of an instance following the class", follower.param.serialize_value, "x")
+                if not samejson(strict_loads(ftext)["x"], strict_loads(fone)):
+                    return fail("serialized", "an instance that never set x: serialize_parameters gives %s, serialize_value gives %s" % (ftext, fone), fone, ftext)
             if level == "instance" and not born_none:
                 serialized.append(got["x"])
             if born_none and mode in ("both", "schema"):
